@@ -4,7 +4,8 @@
     [run c modes evs] is the peer after the event history [evs] (InitAllTables,
     periodicUpdate ticks, time passing, client queries, the environment
     switching addresses between ok / refuse / garbage, the core behind the
-    backend restarting) for configuration [c].
+    backend restarting, the partner answering the status query with zero rows)
+    for configuration [c].
     [hist_ok c evs]: the stale timeout is not negative, time only moves
     forward and [c] is the repaired code ([c_fixed]); for the pinned code the
     first theorem is refuted ([C13_up_only_after_sync_refuted_for_pinned_code]). *)
@@ -73,12 +74,17 @@ Theorem C13_down_lists_failed :
 Proof. exact thm_down_lists_failed. Qed.
 
 (** recovery_clears: a due periodicUpdate whose first query is answered brings
-    the backend up with fresh data, a cleared error and error count. *)
+    the backend up with fresh data, a cleared error and error count.
+    ([env_ready s]: answered with a status row. The environment of the model
+    got this dimension when the event [EReady] - a partner lmd that answers the
+    status query with zero rows - was added; for [env_ready s = false] see
+    [C13_partner_not_ready].) *)
 Theorem C13_recovery_clears :
   forall c modes evs, hist_ok c evs -> (0 < c_nsrc c)%nat ->
     let s := snd (run c modes evs) in
     let modes' := fst (run c modes evs) in
     let s1 := update_idle c s in
+    env_ready s = true ->
     last_update s + (if idling s1 then c_idle_int c else c_upd c) <= now s ->
     snd (do_query c modes' (set_last_update (now s) s1)) = true ->
     synced (periodic c modes' false s).
@@ -205,7 +211,7 @@ Theorem C13_successful_contact_ends_up :
        synced (fst (init_all c modes' s)) /\ current (fst (init_all c modes' s))) /\
     (snd (update_delta c modes' s) = UOk ->
        synced (fst (update_delta c modes' s)) /\ current (fst (update_delta c modes' s))) /\
-    (snd (do_query c modes' s) = true ->
+    (env_ready s = true -> snd (do_query c modes' s) = true ->
        synced (after_update c modes' (update_delta c modes' s)) /\
        current (after_update c modes' (update_delta c modes' s))).
 Proof. exact thm_successful_contact. Qed.
@@ -219,6 +225,7 @@ Theorem C13_recovery_is_current :
     let s := snd (run c modes evs) in
     let modes' := fst (run c modes evs) in
     let s1 := update_idle c s in
+    env_ready s = true ->
     last_update s + (if idling s1 then c_idle_int c else c_upd c) <= now s ->
     snd (do_query c modes' (set_last_update (now s) s1)) = true ->
     let o := observe (periodic c modes' false s) in
@@ -235,7 +242,7 @@ Theorem C13_resync_after_core_restart :
   forall c modes evs ch, hist_ok c evs -> (0 < c_nsrc c)%nat ->
     let s0 := snd (run c modes evs) in
     let modes' := fst (run c modes evs) in
-    status s0 = Up ->
+    status s0 = Up -> env_ready s0 = true ->
     let s := restart ch s0 in
     let s1 := update_idle c s in
     last_update s + (if idling s1 then c_idle_int c else c_upd c) <= now s ->
@@ -245,6 +252,54 @@ Theorem C13_resync_after_core_restart :
     o_status o = Up /\ o_err o = false /\ o_online o = true /\ o_failed o = false /\ o_bygroup o = false /\
     o_core o = env_core s /\ o_dset o = env_dset s.
 Proof. exact thm_resync_after_core_restart. Qed.
+
+(** partner_not_ready: the status query of a (re)initialisation is answered
+    with zero rows ("peered partner not ready yet"; any history, any
+    configuration, pinned or repaired code). A full synchronisation whose
+    first query is answered fails and leaves the backend down with that error
+    and WITHOUT data; right after a due periodicUpdate whose first query is
+    answered - the first synchronisation, a retry, or the update of a
+    synchronised up / warning backend, which re-initialises at once with the
+    old objects still cached - sites shows down and the error, the backend is
+    offline, listed as failed, the by-group tables are refused and nothing of
+    the old objects is served. A later answered contact of a ready partner
+    recovers: [C13_recovery_clears], [C13_recovery_is_current]. *)
+Theorem C13_partner_not_ready :
+  forall c modes evs, (0 < c_nsrc c)%nat ->
+    let s := snd (run c modes evs) in
+    let modes' := fst (run c modes evs) in
+    env_ready s = false ->
+    (snd (do_query c modes' (set_last_update (now s) s)) = true ->
+       snd (init_all c modes' s) = false /\ down_not_ready (fst (init_all c modes' s))) /\
+    (let s1 := update_idle c s in
+     last_update s + (if idling s1 then c_idle_int c else c_upd c) <= now s ->
+     snd (do_query c modes' (set_last_update (now s) s1)) = true ->
+     let o := observe (periodic c modes' false s) in
+     o_status o = Down /\ o_err o = true /\ o_online o = false /\ o_failed o = true /\ o_bygroup o = true /\
+     o_core o = 0%nat /\ o_dset o = 0%nat).
+Proof. exact thm_partner_not_ready. Qed.
+
+(** non-vacuity: partner not ready at the first synchronisation, recovery,
+    not ready when an up backend is updated (down, nothing served), recovery,
+    not ready together with a restart of the core *)
+Example C13_example_partner_not_ready :
+  let c := mkCfg 10000 120000 3000 40000 1 0 true in
+  map (fun o => (o_status o, o_err o, o_online o, o_failed o, o_bygroup o, o_core o))
+      (trace c ([MOk], init_st)
+         [EReady false; EInit; EPass 3100; ETick false; EReady true; EPass 3100; ETick false;
+          EReady false; ETick false; EPass 3100; ETick false; EPass 3100; ETick false;
+          EReady true; EPass 3100; ETick false;
+          ERestart true; EReady false; EPass 3100; ETick false; EReady true; EPass 3100; ETick false]) =
+  [(Pending, true, false, true, true, 0); (Down, true, false, true, true, 0); (Down, true, false, true, true, 0);
+   (Down, true, false, true, true, 0); (Down, true, false, true, true, 0); (Down, true, false, true, true, 0);
+   (Up, false, true, false, false, 1);
+   (Up, false, true, false, false, 1); (Up, false, true, false, false, 1); (Up, false, true, false, false, 1);
+   (Down, true, false, true, true, 0); (Down, true, false, true, true, 0); (Down, true, false, true, true, 0);
+   (Down, true, false, true, true, 0); (Down, true, false, true, true, 0); (Up, false, true, false, false, 1);
+   (Up, false, true, false, false, 1); (Up, false, true, false, false, 1); (Up, false, true, false, false, 1);
+   (Down, true, false, true, true, 0); (Down, true, false, true, true, 0); (Down, true, false, true, true, 0);
+   (Up, false, true, false, false, 2)]%nat.
+Proof. vm_compute. reflexivity. Qed.
 
 (** non-vacuity: restart of the core behind an up backend (old objects served
     until the next due update, then up with the new ones), a restart noticed
@@ -286,3 +341,4 @@ Print Assumptions C13_never_left_syncing.
 Print Assumptions C13_successful_contact_ends_up.
 Print Assumptions C13_recovery_is_current.
 Print Assumptions C13_resync_after_core_restart.
+Print Assumptions C13_partner_not_ready.
